@@ -142,11 +142,27 @@ theorem lg_ensureSigchld (st : St) : LogExt st (ensureSigchld st) := by
   · exact (lg_watchSignal _ _ _ _).trans (LogExt.of_eq rfl)
 
 
+theorem lg_setNotify (st : St) (a : Nat) (n : Option Nat) : LogExt st (setNotify st a n) := by
+  unfold setNotify
+  exact lg_setW st a { st.getW a with notify := n }
+
+theorem lg_linkNotified (r : St × Nat) (a : Nat) (flags : Nat) : LogExt r.1 (linkNotified r a flags) := by
+  unfold linkNotified
+  exact ((lg_setNotify r.1 a (some r.2)).trans (lg_insertWatch _ _ _ _)).trans (lg_with_procs _ _)
+
+theorem lg_clearNotify (st : St) (a : Nat) : LogExt st (clearNotify st a) := by
+  unfold clearNotify
+  split
+  · exact lg_setNotify st a none
+  · exact LogExt.refl _
+
 theorem lg_linkProcess (st : St) (a : Nat) (pid : Int) (flags : Nat) : LogExt st (linkProcess st a pid flags) := by
   unfold linkProcess
   simp only []
   split
-  · exact ((lg_waitpid _ _).trans (lg_setWstatus _ _ _)).trans (lg_watchLater _ _ _ _)
+  · split
+    · exact (((lg_waitpid _ _).trans (lg_setWstatus _ _ _)).trans (lg_watchLater _ _ _ _)).trans (lg_linkNotified _ _ _)
+    · exact ((lg_waitpid _ _).trans (lg_setWstatus _ _ _)).trans (lg_watchLater _ _ _ _)
   · exact ((lg_waitpid _ _).trans (lg_insertWatch _ _ _ _)).trans (lg_with_procs _ _)
 
 
@@ -201,8 +217,8 @@ theorem lg_laterPre (st : St) (a : Nat) : LogExt st (laterPre st a) := by
   · exact (lg_setW _ _ _)
   · exact LogExt.refl _
 
-theorem lg_watchCancel (st : St) (a : Nat) : LogExt st (watchCancel st a) := by
-  unfold watchCancel
+theorem lg_watchCancel0 (st : St) (a : Nat) : LogExt st (watchCancel0 st a) := by
+  unfold watchCancel0
   split
   · exact LogExt.refl st
   · split
@@ -217,6 +233,14 @@ theorem lg_watchCancel (st : St) (a : Nat) : LogExt st (watchCancel st a) := by
             · exact LogExt.refl st
           · exact lg_cancelFound st a _ _
 
+
+theorem lg_watchCancel (st : St) (a : Nat) : LogExt st (watchCancel st a) := by
+  unfold watchCancel
+  split
+  · split
+    · exact (lg_watchCancel0 st a).trans (lg_watchCancel0 _ _)
+    · exact lg_watchCancel0 st a
+  · exact lg_watchCancel0 st a
 
 theorem lg_with_slots (st : St) (l : List SlotRec) : LogExt st { st with slots := l } := LogExt.of_eq rfl
 
@@ -416,7 +440,7 @@ theorem lg_processNotify (st : St) (a : Nat) : LogExt st (processNotify st a) :=
   unfold processNotify
   split
   · exact (lg_fail _ _)
-  · exact lg_invokeWatch _ _ _ _
+  · exact (lg_clearNotify _ _).trans (lg_invokeWatch _ _ _ _)
 
 
 theorem lg_laterCb (st : St) (a : Nat) : LogExt st (laterCb st a) := by
